@@ -427,6 +427,98 @@ def _nf_extra(rep: Report, spec: str, sel: str, invs: list[str], dump: bool, pro
         shutil.rmtree(tmp, ignore_errors=True)
 
 
+# --------------------------------------------------------------------------- MarkerMergeGlue: MC + B1
+GLUE_CFG = """SPECIFICATION GlueSpec
+CONSTANTS
+ N = 60
+ GridMajors = {2, 3, 4}
+ GridMinors = {0, 1, 8, 9, 10}
+ GridMicros = {0, 1, 2, 99}
+ RelVals = {0}
+ MaxRelLen = 1
+ Epochs = {0}
+ Pres = {0}
+ Posts = {0}
+ Devs = {0}
+ CandVals = {0}
+ MaxCandLen = 1
+ PfvPoints <- PfvNone
+ RelPoints <- RelNone
+ VerLits <- LitsGlue
+ ListItems <- ItemsNone
+ StrMax = 0
+INVARIANT MergeSound
+CHECK_DEADLOCK FALSE
+"""
+GLUE_VERSIONS = [(x, y, z) for x in (2, 3, 4) for y in (0, 1, 8, 9, 10) for z in (0, 1, 2, 99)]
+
+
+def _glue_atom_text(a: dict) -> str:
+    op, lit = a["op"], ".".join(str(v) for v in a["rel"])
+    if op in ("==*", "!=*"):
+        op, lit = op[:2], lit + ".*"
+    return f'{a["var"]} {op} "{lit}"'
+
+
+def _glue_chunk(states):
+    from dep_logic.markers import parse_marker
+    from dep_logic.markers.single import SingleMarker
+    envs = [{"python_full_version": f"{x}.{y}.{z}", "python_version": f"{x}.{y}"} for (x, y, z) in GLUE_VERSIONS]
+    fails, n, drift = [], 0, 0
+    for st in states:
+        t1, t2, kind = _glue_atom_text(st["a1"]), _glue_atom_text(st["a2"]), st["kind"]
+        n += 1
+        ctx = {"kind": "glue-vector", "a1": t1, "a2": t2, "op": kind, "spec": st["out"]["k"]}
+        try:
+            m1, m2 = parse_marker(t1), parse_marker(t2)
+            r = (m1 & m2) if kind == "and" else (m1 | m2)
+            got = [bool(r.evaluate(e)) for e in envs]
+            want = [(bool(m1.evaluate(e)) and bool(m2.evaluate(e))) if kind == "and" else (bool(m1.evaluate(e)) or bool(m2.evaluate(e))) for e in envs]
+        except Exception as e:  # noqa: BLE001
+            fails.append((f"C02:glue-b1:{kind}({st['a1']['var']}:{st['a1']['op']},{st['a2']['var']}:{st['a2']['op']}):raises-{type(e).__name__}", f"{t1!r} {kind} {t2!r}: {e!r}", ctx))
+            continue
+        if got != want:
+            bad = [envs[i]["python_full_version"] for i in range(len(envs)) if got[i] != want[i]][:4]
+            fails.append((f"C02:glue-b1:{kind}({st['a1']['var']}:{st['a1']['op']},{st['a2']['var']}:{st['a2']['op']}):table",
+                          f"{t1!r} {kind} {t2!r} -> {drive_marker._key(r)!r}: wrong on python {bad}", dict(ctx, result=drive_marker._key(r))))
+        merged_real = isinstance(r, SingleMarker) or r.is_empty() or r.is_any()
+        if merged_real != (st["out"]["k"] != "none"):
+            drift += 1
+    return n, fails, drift
+
+
+def glue_mc(rep: Report, thorough: bool) -> None:
+    """TLC on MarkerMergeGlue (python_version / python_full_version atom merging, composition of
+    normalise -> interval algebra -> re-render) + replay of every pair on real markers."""
+    tmp = tempfile.mkdtemp(prefix="verif_glue_")
+    try:
+        cfgp = os.path.join(tmp, "c.cfg")
+        open(cfgp, "w").write(GLUE_CFG)
+        d = os.path.join(tmp, "d")
+        r = tla.run_tlc("MarkerMergeGlueMC.tla", cfgp, workers=16, args=["-dump", d], heap="4g")
+        if r.violated:
+            rep.violation(f"C02:spec:MarkerMergeGlue:{r.violated}", "TLC: MergeSound violated by the transcribed atom merging", {"tlc_tail": r.out[-2500:]})
+            return
+        tla.require_ok(r, "TLC MarkerMergeGlue")
+        rep.add("states", r.distinct)
+        rep.add("transitions", r.generated)
+        rep.cov.setdefault("tlc_runs", []).append({"module": "MarkerMergeGlue", "invariants": ["MergeSound"], "distinct": r.distinct, "wall_s": round(r.wall, 1)})
+        states = [s for s in tla.load_dump(d + ".dump") if s["kind"] != "init"]
+    finally:
+        shutil.rmtree(tmp, ignore_errors=True)
+    size = max(1, len(states) // 32)
+    total = drift = 0
+    with mp.Pool(16) as pool:
+        for n, fails, dr in pool.map(_glue_chunk, [states[i:i + size] for i in range(0, len(states), size)]):
+            total += n
+            drift += dr
+            for (sig, detail, vec) in fails:
+                rep.violation(sig, detail, vec)
+    rep.add("traces_validated_against_impl", total)
+    rep.count("glue_vectors_replayed", total)
+    rep.count("glue_merge_decision_drift", drift)
+
+
 def normal_form_mc(rep: Report, pid: str, thorough: bool) -> None:
     """TLC on MarkerNormalForm (the transcribed rewriting engine) + replay of every transition."""
     if pid == "C12":
@@ -481,6 +573,8 @@ def run(pid: str, tier: str, replay: str | None = None) -> int:
         return _replay(rep, replay)
     if pid in ("C02", "C15", "C12"):
         normal_form_mc(rep, pid, thorough)
+    if pid == "C02":
+        glue_mc(rep, thorough)
     if pid in ("C02", "C15"):
         group_algebra_mc(rep, pid, thorough)
         # results fed back as operands, breadth-first to depth 3 (design level only)
